@@ -83,6 +83,21 @@ def rstrip (s : PStr) : PStr := (s.reverse.dropWhile isSpace).reverse
 /-- `str.strip()` without argument: drop the maximal whitespace prefix, then the maximal whitespace suffix -/
 def strip (s : PStr) : PStr := rstrip (lstrip s)
 
+/-- values a caller can pass as `strip` (tested by `if strip:`): only the truth value matters -/
+inductive PyArg where
+  | bool (b : Bool)
+  | int (n : Int)
+  | none
+  | str (s : PStr)
+deriving DecidableEq, Repr
+
+/-- Python truthiness -/
+def PyArg.truthy : PyArg → Bool
+  | .bool b => b
+  | .int n => n != 0
+  | .none => false
+  | .str s => !s.isEmpty
+
 /-! ### the walk over `descendants` -/
 
 mutual
@@ -135,6 +150,38 @@ def allStringsImpl (main : List StrClass) (strp : Bool) (types : TypesArg) : Nod
     else
       let finalValue := if strp then strip v else v
       if finalValue.length > 0 then [finalValue] else []   -- element.py:1408: an empty string yields nothing
+
+/-- `_all_strings(strip, types)` / `get_text(separator, strip, types)` with `strip` as passed: `if strip:` -/
+def allStringsArg (main : List StrClass) (strp : PyArg) (types : TypesArg) (n : Node) : List PStr :=
+  allStringsImpl main strp.truthy types n
+
+/-! #### a one-shot iterator as `types` (recorded behaviour; the documented argument is a tuple)
+
+`descendant_type not in types` on an iterator/generator *consumes* it: `in` advances up to and including the first
+equal element, or to the end. The filter then depends on the order of the strings and is no longer a selection by
+class. -/
+
+/-- `c in it` for a one-shot iterator holding `it`: the answer and what is left of the iterator -/
+def iterIn (c : StrClass) : List StrClass → Bool × List StrClass
+  | [] => (false, [])
+  | d :: ds => if d == c then (true, ds) else iterIn c ds
+
+/-- the loop of `Tag._all_strings` when `types` is a one-shot iterator: the iterator state is threaded through -/
+def iterWalk (strp : Bool) : List StrClass → List Node → List PStr
+  | _, [] => []
+  | it, .tag _ _ _ :: ns => iterWalk strp it ns
+  | it, .str c v :: ns =>
+    match iterIn c it with
+    | (true, it') => (tagKeep .all strp (.str c v)).toList ++ iterWalk strp it' ns
+    | (false, it') => iterWalk strp it' ns
+
+def allStringsIterImpl (strp : Bool) (it : List StrClass) : Node → List PStr
+  | .tag _ _ kids => iterWalk strp it (walk kids)
+  | .str c v =>
+    if (iterIn c it).1 then
+      let finalValue := if strp then strip v else v
+      if finalValue.length > 0 then [finalValue] else []
+    else []
 
 /-- `Tag.strings = property(_all_strings)`, `NavigableString.strings` -/
 def stringsImpl (main : List StrClass) (n : Node) : List PStr := allStringsImpl main false .dflt n
